@@ -1,2 +1,293 @@
-(* Props.C03 — placeholder; theorems are being added. *)
-Require Import PyStr Writer.
+(* Props.C03 — header metadata survives write -> read in every section and both versions.
+   Statements only; the proofs are in Proofs/WriteHeaderProofs.v (writer side, lifting to
+   items and sections), Proofs/OrderTableProofs.v (value/description order tables) and, for
+   the parse direction, the header-grammar theorem C04_parse_all (Proofs/HeaderLineProofs.v).
+
+   Reading.  For one section of kind k (KVersion, KWell, KCurves, KParameter) with items
+   `items`, the writer (Model/Writer.v section_lines) computes two column widths from ALL
+   items, chooses per item the value/description order o from the generated table
+   (Gen/Tables.v order_definitions, re-translated from lasio/defaults.py on every run) and
+   emits   MNEM pad . UNIT pad+ RHS " : " TAIL   (format_item; rhs/tail = value/description in
+   the order o).  The reader (Model/SectionParse.v parse_body) strips each line, parses it
+   with read_header_line, maps the mnemonic by mnemonic_case c, and builds the item with the
+   order it looks up itself (build_item).
+
+     conf_item fstr k o lw mw it  (written from the property text):
+        mnemonic  non-empty, no '.', no ':', no leading/trailing white space (inner blanks ok);
+        unit      no white space, does not end with '.', not entirely digits (may be empty);
+        rhs, tail stripped, without newline (may be empty; quotes, brackets, punctuation ok);
+        outside ~Parameter the field after the colon has no ':';
+        in ~Parameter every colon of the field before the colon is a clock colon
+           (C04's clock_colons; the description may contain colons) and, when the description
+           is empty, the unit has no colon;
+        in ~Curves the line contains no ".." (C03_curves_no_double_dot gives the field-wise
+           sufficient condition: unit without "..", not starting with '.', value and
+           description without "..").
+     covers fstr o lw mw it : |mnemonic| <= lw  and  |unit| + 1 + |rhs| <= mw.
+     starts_ok cc it : the first character of the mnemonic is neither a comment character of
+        the reader (cc) nor '~' (such a line is skipped / ends the section).
+     expected_item fstr k c it = new_item (apply_case c mnemonic) (strip_brackets unit)
+                                          (read_value k mnemonic (str(value))) description
+        where read_value is VStr text in ~Curves and for API/UWI outside ~Parameter, and
+        num text otherwise (Model/Num.v; C08).
+     meta it = (original mnemonic, unit, value, description); the session mnemonic (":1", ":2"
+        suffixes of duplicates) is not part of it — duplicates are therefore allowed.
+
+   PROVED AT FULL STRENGTH (for every item list, both orders, every version, every
+   mnemonic_case, every width that covers, every oracle fstr):
+     1 C03_widths_cover        the widths section_lines computes cover EVERY item of the
+                               section, whichever item is the widest;
+     2 C03_format_is_layout    a formatted line is the C04 layout with blank paddings, the one
+                               between unit and right-hand field non-empty (C03_padding);
+     3 C03_line_roundtrip      read_header_line gives back the four fields (also for the
+                               stripped line, C03_stripped_line_roundtrip);
+     4 C03_item_roundtrip      parse_line gives expected_item (the orders of writer and reader
+                               agree: C03_order_tables_agree, from C12's table lemmas);
+       C03_value_text / C03_value_curves / C03_value_number_string / C03_value_roundtrip
+                               the value: text that is not a plain decimal literal comes back
+                               verbatim (C08), ~Curves and API/UWI always verbatim; numbers
+                               under the oracle hypothesis Hnum;
+       C03_expected_meta       hence, for an unbracketed unit and a value that reads back,
+                               meta of the item read = meta of the item written with the
+                               mnemonic case-mapped;
+     5 C03_section_roundtrip   parse_body of the lines section_lines writes returns, in
+                               order, items whose meta are the expected ones (0..n items,
+                               duplicates included) — for the four standard sections;
+     6 C03_standardize_idem / C03_standardize_cases   standardize_value is idempotent and
+                               changes only None (-> "" without unit) and empty/None values of
+                               items with a unit (-> 0): the documented permitted difference.
+
+   NOT PROVED HERE (covered by the correspondence runs of the harness only):
+     * blank mnemonics ("lines with no further period"): conf_mnem requires a non-empty
+       mnemonic; the line ".UNIT VALUE : DESCR" goes through the back-off of the name pattern
+       which C04_parse_all does not cover;
+     * the whole-file statement (write then read, including STRT/STOP/STEP refresh, unit
+       alignment and ~Other): the section-level theorem is about section_lines/parse_body;
+       the composition with find_sections and the data section is tied by correspondence;
+     * units made of digits only, bracketed units, lines on which the ~Curves ".."
+       special case triggers: excluded by the property text.
+
+   ORACLE ASSUMPTIONS.  fstr (= str(np.float64(text))) is universally quantified: nothing is
+   assumed about it except what conf_item says about the resulting text.  "Numbers compared
+   numerically" is the explicit hypothesis Hnum of C03_value_roundtrip:
+   val_equiv numeq (num (vstr fstr v)) v.  Case mapping is ASCII (upper/lower of PyStr). *)
+From Coq Require Import List NArith ZArith Bool String.
+Import ListNotations.
+Require Import PyStr Regex NumLit Num NumSpec HeaderLine Tables SectionParse Writer.
+Require Import HeaderLineSpec ItemsBindProofs OrderTableProofs WriteHeaderProofs.
+Open Scope string_scope. Open Scope list_scope. Open Scope N_scope.
+
+(* 1. the widths of a section cover every one of its items *)
+Theorem C03_widths_cover :
+  forall (fstr : list N -> list N) (ord : hitem -> item_order) (items : list hitem) (it : hitem),
+  In it items ->
+  (List.length (i_orig it) <= sec_lw items)%nat /\
+  (List.length (i_unit it) + 1 + List.length (rhs_text fstr (ord it) it) <= sec_mw fstr ord items)%nat.
+Proof. exact widths_cover. Qed.
+
+(* ... and sec_lw / sec_mw / sec_ord are what section_lines uses *)
+Theorem C03_section_lines_unfold : forall fstr v sect items,
+  section_lines fstr v sect items =
+  match lookup_order_entry v sect order_definitions with
+  | None => None
+  | Some _ => Some (map (fun it => format_item fstr (sec_ord v sect it) (sec_lw items)
+                                     (sec_mw fstr (sec_ord v sect) items) it) items)
+  end.
+Proof. exact section_lines_eq. Qed.
+
+(* 2. a formatted line is a layout; all paddings are blanks; the second is non-empty *)
+Theorem C03_format_is_layout : forall fstr o lw mw it,
+  format_item fstr o lw mw it =
+  layout [] (i_orig it) (pad1 lw it) (i_unit it) (pad2 fstr o mw it) (rhs_text fstr o it)
+         [32] [32] (tail_text fstr o it) [].
+Proof. exact format_is_layout. Qed.
+
+Theorem C03_padding : forall fstr o lw mw it,
+  blanks (pad1 lw it) = true /\ blanks (pad2 fstr o mw it) = true /\
+  (covers fstr o lw mw it -> (1 <= List.length (pad2 fstr o mw it))%nat).
+Proof.
+  intros. split; [apply blanks_pad1|]. split; [apply blanks_pad2|]. apply pad2_length.
+Qed.
+
+(* 3. one line *)
+Theorem C03_line_roundtrip : forall fstr k o lw mw it,
+  conf_item fstr k o lw mw it = true -> covers fstr o lw mw it ->
+  read_header_line (format_item fstr o lw mw it) (is_curves_of k) (is_param_of k)
+  = Some (mkhl (i_orig it) (i_unit it) (rhs_text fstr o it) (tail_text fstr o it)).
+Proof. exact line_roundtrip. Qed.
+
+Theorem C03_stripped_line_roundtrip : forall fstr k o lw mw it,
+  conf_item fstr k o lw mw it = true -> covers fstr o lw mw it ->
+  read_header_line (strip (format_item fstr o lw mw it)) (is_curves_of k) (is_param_of k)
+  = Some (mkhl (i_orig it) (i_unit it) (rhs_text fstr o it) (tail_text fstr o it)).
+Proof. exact stripped_line_roundtrip. Qed.
+
+(* the ~Curves condition of conf_item from conditions on the fields *)
+Theorem C03_curves_no_double_dot : forall fstr o lw mw it,
+  conf_mnem (i_orig it) = true -> conf_unit (i_unit it) = true -> covers fstr o lw mw it ->
+  curves_fields_ok fstr o it = true ->
+  no_double_dot (format_item fstr o lw mw it) = true.
+Proof. exact curves_line_ok. Qed.
+
+(* the order the writer lays an item out in is the order the reader reads it back in *)
+Theorem C03_order_tables_agree : forall v k c m, is_std k = true ->
+  order_of v (sect_table_name k) m = Some (reader_order v k (apply_case c m)).
+Proof. exact writer_order_is_reader_order. Qed.
+
+(* 4. one item *)
+Theorem C03_item_roundtrip : forall fstr v k c o lw mw it,
+  conf_item fstr k o lw mw it = true -> covers fstr o lw mw it ->
+  o = reader_order v k (apply_case c (i_orig it)) ->
+  parse_line v k c (format_item fstr o lw mw it) = Some (expected_item fstr k c it).
+Proof. exact item_roundtrip. Qed.
+
+Theorem C03_expected_item_fields : forall fstr k c it,
+  i_orig (expected_item fstr k c it) = apply_case c (i_orig it) /\
+  i_unit (expected_item fstr k c it) = strip_brackets (i_unit it) /\
+  i_value (expected_item fstr k c it) = read_value k (i_orig it) (vstr fstr (i_value it)) /\
+  i_descr (expected_item fstr k c it) = i_descr it.
+Proof. intros. repeat split. Qed.
+
+Theorem C03_unit_unbracketed : forall u,
+  conf_unit u = true -> not_bracketed u = true -> strip_brackets u = u.
+Proof. exact strip_brackets_conf. Qed.
+
+(* the value: text that is not a plain decimal literal is kept verbatim in every section *)
+Theorem C03_value_text : forall k name s,
+  ~ plain_decimal (comma_to_dot s) -> read_value k name s = VStr s.
+Proof. exact read_value_text. Qed.
+Theorem C03_value_curves : forall name s, read_value KCurves name s = VStr s.
+Proof. exact read_value_curves. Qed.
+Theorem C03_value_number_string : forall k name s,
+  k <> KParameter -> is_number_string name = true -> read_value k name s = VStr s.
+Proof. exact read_value_number_string. Qed.
+(* numbers: compared numerically, under the oracle hypothesis that str() of the value reads
+   back as an equal number *)
+Theorem C03_value_roundtrip : forall numeq fstr k name val,
+  k <> KCurves -> (k = KParameter \/ is_number_string name = false) ->
+  forall Hnum : val_equiv numeq (num (vstr fstr val)) val,
+  val_equiv numeq (read_value k name (vstr fstr val)) val.
+Proof. exact read_value_numeric. Qed.
+
+Theorem C03_expected_meta : forall fstr k c it,
+  conf_unit (i_unit it) = true -> not_bracketed (i_unit it) = true ->
+  read_value k (i_orig it) (vstr fstr (i_value it)) = i_value it ->
+  meta (expected_item fstr k c it) = (apply_case c (i_orig it), i_unit it, i_value it, i_descr it).
+Proof. exact expected_meta. Qed.
+
+(* 5. one section: the lines section_lines writes are read back in order *)
+Theorem C03_section_roundtrip : forall fstr v k c ie cc tr items, is_std k = true ->
+  (forall it, In it items ->
+     conf_item fstr k (sec_ord v (sect_table_name k) it) (sec_lw items)
+               (sec_mw fstr (sec_ord v (sect_table_name k)) items) it = true /\
+     starts_ok cc it = true) ->
+  exists lines items',
+    section_lines fstr v (sect_table_name k) items = Some lines /\
+    parse_body v k c ie cc tr lines [] = POk items' /\
+    map meta items' = map (fun it => meta (expected_item fstr k c it)) items.
+Proof. exact section_roundtrip. Qed.
+
+(* 6. standardize_value *)
+Theorem C03_standardize_idem : forall fzero val u,
+  standardize fzero (standardize fzero val u) u = standardize fzero val u.
+Proof. exact standardize_idem. Qed.
+
+Theorem C03_standardize_cases : forall fzero val u,
+  (standardize fzero val u = val /\ val <> VNone /\ (u = [] \/ val <> VStr []))
+  \/ (val = VNone /\ u = [] /\ standardize fzero val u = VStr [])
+  \/ (u <> [] /\ (val = VNone \/ val = VStr []) /\ standardize fzero val u = VInt 0).
+Proof. exact standardize_cases. Qed.
+
+(* ---- non-vacuity: concrete sections through writer and reader, evaluated by the kernel -- *)
+Definition ex_fstr (l : list N) : list N := l.
+(* ~Well, 1.2: the unit+value of the first item is the widest while the value of the second
+   is empty; duplicate mnemonic; quotes and brackets in the description *)
+Definition ex_well : list hitem :=
+  [ new_item (s2l "STRT") (s2l "M") (VFloat (s2l "1670.0")) (s2l "START DEPTH");
+    new_item (s2l "P1") (s2l "DEGC") (VStr []) (s2l "bht ""max"" [x]");
+    new_item (s2l "COMP") [] (VStr (s2l "ANY OIL (1) CO.")) (s2l "COMPANY");
+    new_item (s2l "COMP") [] (VStr (s2l "again")) [] ].
+Definition ex_curves : list hitem :=
+  [ new_item (s2l "DEPT") (s2l "M") (VStr []) (s2l "1 DEPTH");
+    new_item (s2l "GR") (s2l "gAPI") (VStr (s2l "7 350 01")) (s2l "gamma") ].
+Definition ex_params : list hitem :=
+  [ new_item (s2l "TIME") [] (VStr (s2l "13:45 23-JAN")) (s2l "Time: at bottom");
+    new_item (s2l "BHT") (s2l "DEGC") (VFloat (s2l "35.5")) [] ].
+
+Example C03_ex_hyps :
+  (forall it, In it ex_well ->
+     conf_item ex_fstr KWell (sec_ord V12 (sect_table_name KWell) it) (sec_lw ex_well)
+               (sec_mw ex_fstr (sec_ord V12 (sect_table_name KWell)) ex_well) it = true /\
+     starts_ok (s2l "#") it = true) /\
+  (forall it, In it ex_curves ->
+     conf_item ex_fstr KCurves (sec_ord V20 (sect_table_name KCurves) it) (sec_lw ex_curves)
+               (sec_mw ex_fstr (sec_ord V20 (sect_table_name KCurves)) ex_curves) it = true /\
+     starts_ok (s2l "#") it = true) /\
+  (forall it, In it ex_params ->
+     conf_item ex_fstr KParameter (sec_ord V20 (sect_table_name KParameter) it) (sec_lw ex_params)
+               (sec_mw ex_fstr (sec_ord V20 (sect_table_name KParameter)) ex_params) it = true /\
+     starts_ok (s2l "#") it = true).
+Proof.
+  split; [|split]; intros it Hin; cbn [In ex_well ex_curves ex_params] in Hin;
+    repeat (destruct Hin as [<-|Hin]; [split; vm_compute; reflexivity|]); destruct Hin.
+Qed.
+
+Example C03_ex_well_text :
+  option_map (map l2s) (section_lines ex_fstr V12 (s2l "Well") ex_well)
+  = Some [ "STRT.M           1670.0 : START DEPTH";
+           "P1  .DEGC bht ""max"" [x] : ";
+           "COMP.           COMPANY : ANY OIL (1) CO.";
+           "COMP.                   : again" ]%string.
+Proof. vm_compute. reflexivity. Qed.
+
+Example C03_ex_well_read :
+  match section_lines ex_fstr V12 (s2l "Well") ex_well with
+  | Some lines =>
+      match parse_body V12 KWell CaseLower false (s2l "#") true lines [] with
+      | POk items' => map meta items'
+      | PErr _ => []
+      end
+  | None => []
+  end
+  = [ (s2l "strt", s2l "M", VFloat (s2l "1670.0"), s2l "START DEPTH");
+      (s2l "p1", s2l "DEGC", VStr [], s2l "bht ""max"" [x]");
+      (s2l "comp", [], VStr (s2l "ANY OIL (1) CO."), s2l "COMPANY");
+      (s2l "comp", [], VStr (s2l "again"), []) ].
+Proof. vm_compute. reflexivity. Qed.
+
+Example C03_ex_param_read :
+  match section_lines ex_fstr V20 (s2l "Parameter") ex_params with
+  | Some lines =>
+      match parse_body V20 KParameter CasePreserve false (s2l "#") false lines [] with
+      | POk items' => map meta items'
+      | PErr _ => []
+      end
+  | None => []
+  end = map meta ex_params.
+Proof. vm_compute. reflexivity. Qed.
+
+Example C03_ex_standardize :
+  standardize (fun _ => false) (VStr []) (s2l "M") = VInt 0 /\
+  standardize (fun _ => false) VNone [] = VStr [] /\
+  standardize (fun _ => false) (VStr []) [] = VStr [].
+Proof. repeat split. Qed.
+
+Print Assumptions C03_widths_cover.
+Print Assumptions C03_section_lines_unfold.
+Print Assumptions C03_format_is_layout.
+Print Assumptions C03_padding.
+Print Assumptions C03_line_roundtrip.
+Print Assumptions C03_stripped_line_roundtrip.
+Print Assumptions C03_curves_no_double_dot.
+Print Assumptions C03_order_tables_agree.
+Print Assumptions C03_item_roundtrip.
+Print Assumptions C03_expected_item_fields.
+Print Assumptions C03_unit_unbracketed.
+Print Assumptions C03_value_text.
+Print Assumptions C03_value_curves.
+Print Assumptions C03_value_number_string.
+Print Assumptions C03_value_roundtrip.
+Print Assumptions C03_expected_meta.
+Print Assumptions C03_section_roundtrip.
+Print Assumptions C03_standardize_idem.
+Print Assumptions C03_standardize_cases.
